@@ -2,9 +2,12 @@
 //      dst(x,y) = sum_{kx,ky} src(x - (kx - cx), y - (ky - cy)) * kernel(kx,ky),   src := 0 outside the image
 // Compile-time shape: C15_SRC_PIX / C15_DST_PIX (source pixel type / float destination pixel type), C15_KER_T (tap type).
 // Run-time-constant shape (vp_param): 0,1 = width,height; 2 = kernel size (square); 3,4 = centre x,y; 5,6 = output pixel under test
-// (5 = -1: every output pixel).
-// Symbolic: every source pixel, every tap (integer-valued in [-4,4], so every product and partial sum is exact in float32), the
-// sentinel the destination is pre-filled with.  Source and destination are exact-size heap objects.
+// (5 = -1: every output pixel); 7 = bit mask of the taps that are symbolic (the others are 0: impulse kernels; -1 = all);
+// 8 = reference arithmetic (0: exact integer sum; 1 / 2: the same sum accumulated in float32, taps ascending / descending).
+// Symbolic: every source pixel, the selected taps (integer-valued in [-4,4], so every product and partial sum is exact in float32),
+// the sentinel the destination is pre-filled with.  Source and destination are exact-size heap objects.
+// convolve_2d accumulates in float: chains of more than four float additions against the integer sum had no verdict in 300 s, so
+// kernels of size 3 are checked with impulse kernels (one symbolic tap per query, every tap position) against the integer sum.
 #include <boost/gil.hpp>
 #include <boost/gil/image_processing/convolve.hpp>
 #include "vp.hpp"
@@ -34,26 +37,42 @@ template <class Pix> struct pbuf {
 
 extern "C" void h_conv2d(void) {
     int w = vp_param(0), h = vp_param(1), K = vp_param(2), cx = vp_param(3), cy = vp_param(4), ox = vp_param(5), oy = vp_param(6);
+    int symmask = vp_param(7);                            // bit k set: tap k is symbolic; clear: tap k is 0 (impulse / sparse kernels); -1: every tap symbolic
     pbuf<src_pix> s; s.alloc(w, h); s.fill();
     pbuf<dst_pix> d; d.alloc(w, h);
     int taps[KMAX * KMAX]; ker_t ktaps[KMAX * KMAX];
     for (int k = 0; k < KMAX * KMAX; ++k) { taps[k] = 0; ktaps[k] = 0; }
-    for (int k = 0; k < K * K; ++k) { int t = vp_range(-4, 4); taps[k] = t; ktaps[k] = (ker_t)t; }
+    for (int k = 0; k < K * K; ++k) { if (!((symmask >> k) & 1)) continue; int t = vp_range(-4, 4); taps[k] = t; ktaps[k] = (ker_t)t; }
     int sent = vp_range(-1000000, 1000000);
     auto sv = s.full(); auto dv = d.full();
     for (int y = 0; y < h; ++y) for (int x = 0; x < w; ++x) for (int ch = 0; ch < NCH; ++ch) dv(x, y)[ch] = (float)sent;
-    gil::detail::kernel_2d<ker_t> ker(ktaps, (std::size_t)(K * K), (std::size_t)cy, (std::size_t)cx);
+    // kernel_2d(size, centre_y, centre_x) + element copy: the iterator constructor derives the size with a libm sqrt call (not modelled)
+    gil::detail::kernel_2d<ker_t> ker((std::size_t)K, (std::size_t)cy, (std::size_t)cx);
+    for (int k = 0; k < K * K; ++k) ker.begin()[k] = ktaps[k];
     vp_assert((int)ker.size() == K && (int)ker.center_x() == cx && (int)ker.center_y() == cy, "conv2d.kernel_shape");
     gil::detail::convolve_2d(sv, ker, dv);
     for (int y = 0; y < h; ++y) for (int x = 0; x < w; ++x) {
         if (ox >= 0 && (x != ox || y != oy)) continue;
         for (int ch = 0; ch < NCH; ++ch) {
-            long acc = 0;
-            for (int ky = 0; ky < K; ++ky) for (int kx = 0; kx < K; ++kx) {
-                int sx = x - (kx - cx), sy = y - (ky - cy);
-                if (sx >= 0 && sx < w && sy >= 0 && sy < h) acc += (long)sv(sx, sy)[ch] * (long)taps[ky * K + kx];
+            int mode = vp_param(8);
+            if (mode == 0) {
+                // exact integer reference
+                long acc = 0;
+                for (int ky = 0; ky < K; ++ky) for (int kx = 0; kx < K; ++kx) {
+                    int sx = x - (kx - cx), sy = y - (ky - cy);
+                    if (sx >= 0 && sx < w && sy >= 0 && sy < h) acc += (long)sv(sx, sy)[ch] * (long)taps[ky * K + kx];
+                }
+                vp_assert((float)dv(x, y)[ch] == (float)acc, "conv2d.output_equals_zero_extended_2d_sum");
+            } else {
+                // float32 reference: the same textbook sum accumulated in float (mode 1: taps in ascending order, mode 2: descending)
+                float acc = 0.0f;
+                for (int iy = 0; iy < K; ++iy) for (int ix = 0; ix < K; ++ix) {
+                    int ky = mode == 1 ? iy : K - 1 - iy, kx = mode == 1 ? ix : K - 1 - ix;
+                    int sx = x - (kx - cx), sy = y - (ky - cy);
+                    if (sx >= 0 && sx < w && sy >= 0 && sy < h) acc += (float)(int)sv(sx, sy)[ch] * (float)ktaps[ky * K + kx];
+                }
+                vp_assert((float)dv(x, y)[ch] == acc, "conv2d.output_equals_zero_extended_2d_float_sum");
             }
-            vp_assert((float)dv(x, y)[ch] == (float)acc, "conv2d.output_equals_zero_extended_2d_sum");
         }
     }
 }
